@@ -1,0 +1,481 @@
+/* This Source Code Form is subject to the terms of the Mozilla Public
+ * License, v. 2.0. If a copy of the MPL was not distributed with this
+ * file, You can obtain one at http://mozilla.org/MPL/2.0/. */
+
+// Verification hooks. Compiled only with `--cfg abra_verif`; inert unless a harness
+// installs a sink / plan / quarantine on the current OS thread.
+
+use super::*;
+use std::cell::{Cell, RefCell};
+use std::collections::HashMap;
+
+pub const T_SCHED: u32 = 1;
+pub const T_STEP: u32 = 2;
+pub const T_GC: u32 = 4;
+pub const T_CHAN: u32 = 8;
+
+#[derive(Clone, Debug)]
+pub enum GcPlan {
+    /// never start a collection
+    Off,
+    /// start a cycle at the listed own-step indices (or whenever `every > 0` and the
+    /// own-step index is `offset` modulo `every`); byte budgets per collector increment
+    Script {
+        starts: Vec<u64>,
+        every: u64,
+        offset: u64,
+        mark_bytes: usize,
+        sweep_bytes: usize,
+        main_only: bool,
+    },
+}
+
+thread_local! {
+    static SINK: RefCell<Option<Vec<String>>> = const { RefCell::new(None) };
+    static FLAGS: Cell<u32> = const { Cell::new(0) };
+    static GC_PLAN: RefCell<Option<GcPlan>> = const { RefCell::new(None) };
+    static QUAR: RefCell<Option<Vec<usize>>> = const { RefCell::new(None) };
+    static QSET: RefCell<std::collections::HashSet<usize>> = RefCell::new(Default::default());
+    static OBJ_IDS: RefCell<HashMap<usize, u64>> = RefCell::new(HashMap::new());
+    static NEXT_OBJ: Cell<u64> = const { Cell::new(1) };
+    static CHAN_IDS: RefCell<HashMap<usize, u64>> = RefCell::new(HashMap::new());
+    static TID_BASE: Cell<u64> = const { Cell::new(0) };
+    static OPT_OFF: Cell<bool> = const { Cell::new(false) };
+    static TRACK: Cell<bool> = const { Cell::new(false) };
+}
+
+pub fn install(flags: u32) {
+    SINK.with(|s| *s.borrow_mut() = Some(Vec::new()));
+    FLAGS.with(|f| f.set(flags));
+    if flags & (T_GC | T_CHAN) != 0 {
+        TRACK.with(|t| t.set(true));
+    }
+}
+
+pub fn take() -> Vec<String> {
+    FLAGS.with(|f| f.set(0));
+    SINK.with(|s| s.borrow_mut().take().unwrap_or_default())
+}
+
+#[inline]
+pub fn on(flag: u32) -> bool {
+    FLAGS.with(|f| f.get() & flag != 0)
+}
+
+pub fn ev(flag: u32, f: impl FnOnce() -> String) {
+    if !on(flag) {
+        return;
+    }
+    SINK.with(|s| {
+        if let Some(v) = s.borrow_mut().as_mut() {
+            v.push(f());
+        }
+    });
+}
+
+pub fn set_plan(p: Option<GcPlan>) {
+    GC_PLAN.with(|c| *c.borrow_mut() = p);
+}
+
+pub fn set_opt_off(off: bool) {
+    OPT_OFF.with(|c| c.set(off));
+}
+
+pub fn opt_off() -> bool {
+    OPT_OFF.with(|c| c.get())
+}
+
+pub fn set_quarantine(on: bool) {
+    if on {
+        QUAR.with(|q| *q.borrow_mut() = Some(Vec::new()));
+        TRACK.with(|t| t.set(true));
+    } else {
+        release_quarantine();
+    }
+}
+
+/// really free everything that was quarantined and forget all ordinals.
+/// Only call when no runtime created on this OS thread is alive any more.
+pub fn reset() {
+    release_quarantine();
+    OBJ_IDS.with(|m| m.borrow_mut().clear());
+    CHAN_IDS.with(|m| m.borrow_mut().clear());
+    NEXT_OBJ.with(|n| n.set(1));
+    TRACK.with(|t| t.set(false));
+    set_plan(None);
+    set_opt_off(false);
+    let _ = take();
+}
+
+fn release_quarantine() {
+    let list = QUAR.with(|q| q.borrow_mut().take());
+    QSET.with(|s| s.borrow_mut().clear());
+    if let Some(list) = list {
+        let mut dummy = usize::MAX / 2;
+        for addr in list {
+            let header = unsafe { &mut *(addr as *mut ObjectHeader) };
+            unsafe { header.dealloc(&mut dummy) };
+        }
+    }
+}
+
+/// forget quarantined memory without freeing it (used after a panic inside the VM, when
+/// the heap may be inconsistent).
+pub fn abandon_quarantine() {
+    QUAR.with(|q| {
+        if q.borrow().is_some() {
+            *q.borrow_mut() = Some(Vec::new());
+        }
+    });
+    QSET.with(|s| s.borrow_mut().clear());
+}
+
+pub(super) fn quarantine(addr: usize) -> bool {
+    QUAR.with(|q| {
+        if let Some(v) = q.borrow_mut().as_mut() {
+            v.push(addr);
+            QSET.with(|s| s.borrow_mut().insert(addr));
+            true
+        } else {
+            false
+        }
+    })
+}
+
+pub(super) fn is_quarantined(addr: usize) -> bool {
+    QSET.with(|s| {
+        let s = s.borrow();
+        !s.is_empty() && s.contains(&addr)
+    })
+}
+
+pub(super) fn on_runtime_new(main_id: u64) {
+    TID_BASE.with(|b| b.set(main_id));
+}
+
+pub fn tid_of(raw: u64) -> u64 {
+    raw.wrapping_sub(TID_BASE.with(|b| b.get()))
+}
+
+pub(super) fn on_alloc(vm: &VmGreenThread, addr: usize, kind: &str, nbytes: usize) {
+    if !TRACK.with(|t| t.get()) {
+        return;
+    }
+    let id = NEXT_OBJ.with(|n| {
+        let v = n.get();
+        n.set(v + 1);
+        v
+    });
+    OBJ_IDS.with(|m| m.borrow_mut().insert(addr, id));
+    ev(T_GC, || {
+        format!(
+            r#"{{"e":"alloc","tid":{},"id":{},"kind":"{}","nbytes":{},"black":{}}}"#,
+            tid_of(vm.id),
+            id,
+            kind,
+            nbytes,
+            vm.gc_state != GcState::Idle
+        )
+    });
+}
+
+pub(super) fn on_dealloc(addr: usize) {
+    // called only for real deallocations (not quarantined ones)
+    if TRACK.with(|t| t.get()) {
+        OBJ_IDS.with(|m| m.borrow_mut().remove(&addr));
+    }
+}
+
+pub fn obj_id(addr: usize) -> u64 {
+    OBJ_IDS.with(|m| m.borrow().get(&addr).copied().unwrap_or(0))
+}
+
+pub(super) fn chan_id(arc_addr: usize) -> u64 {
+    CHAN_IDS.with(|m| {
+        let mut m = m.borrow_mut();
+        let n = m.len() as u64 + 1;
+        *m.entry(arc_addr).or_insert(n)
+    })
+}
+
+pub(super) fn val_json(v: &Value) -> String {
+    match v.1 {
+        ValueTag::Int => format!(r#"{{"t":"int","v":"{}"}}"#, v.0 as i64),
+        ValueTag::Float => format!(r#"{{"t":"float","v":"{}"}}"#, v.0),
+        ValueTag::Bool => format!(r#"{{"t":"bool","v":"{}"}}"#, v.0),
+        ValueTag::Addr => format!(r#"{{"t":"addr","v":"{}"}}"#, v.0),
+        _ => format!(r#"{{"t":"obj","v":"{}"}}"#, obj_id(v.0 as usize)),
+    }
+}
+
+fn children(header_ptr: *mut ObjectHeader, out: &mut Vec<u64>) {
+    let kind = unsafe { (*header_ptr).kind };
+    let mut push = |v: &Value| {
+        if v.1.is_pointer() {
+            let h = unsafe { &*(v.0 as *const ObjectHeader) };
+            if !h.no_gc {
+                out.push(obj_id(v.0 as usize));
+            }
+        }
+    };
+    match kind {
+        ObjectKind::String => {}
+        ObjectKind::Enum => {
+            let obj = unsafe { &*(header_ptr as *const EnumObject) };
+            push(&obj.val);
+        }
+        ObjectKind::Struct => {
+            let obj = unsafe { &*(header_ptr as *const StructObject) };
+            for f in obj.get_fields() {
+                push(f);
+            }
+        }
+        ObjectKind::Array => {
+            let obj = unsafe { &*(header_ptr as *const ArrayObject) };
+            for f in &obj.data {
+                push(f);
+            }
+        }
+        ObjectKind::Channel => {
+            let obj = unsafe { &*(header_ptr as *const ChannelObject) };
+            let data = obj.data.lock().unwrap();
+            for f in data.iter() {
+                push(f);
+            }
+        }
+    }
+}
+
+fn ids_json(v: &[u64]) -> String {
+    let s: Vec<String> = v.iter().map(|x| x.to_string()).collect();
+    format!("[{}]", s.join(","))
+}
+
+/// roots and edges of one green thread's heap as allocation ordinals.
+/// Only sound to call while quarantine is on (reads through every heap_list entry).
+pub(super) fn snapshot(vm: &VmGreenThread) -> String {
+    let mut roots = vec![];
+    let mut root = |v: &Value| {
+        if v.1.is_pointer() {
+            let h = unsafe { &*(v.0 as *const ObjectHeader) };
+            if !h.no_gc {
+                roots.push(obj_id(v.0 as usize));
+            }
+        }
+    };
+    for v in vm.value_stack.iter() {
+        root(v);
+    }
+    root(&vm.string_operand1);
+    root(&vm.string_operand2);
+    let mut heap = vec![];
+    let mut marked = vec![];
+    let mut edges = vec![];
+    for &h in vm.heap_list.iter() {
+        let id = obj_id(h as usize);
+        heap.push(id);
+        if unsafe { (*h).visited } == vm.gc_visited {
+            marked.push(id);
+        }
+        let mut kids = vec![];
+        children(h, &mut kids);
+        for k in kids {
+            edges.push(format!("[{},{}]", id, k));
+        }
+    }
+    let gray: Vec<u64> = vm.gray_stack.iter().map(|&h| obj_id(h as usize)).collect();
+    format!(
+        r#"{{"roots":{},"heap":{},"marked":{},"gray":{},"edges":[{}]}}"#,
+        ids_json(&roots),
+        ids_json(&heap),
+        ids_json(&marked),
+        ids_json(&gray),
+        edges.join(",")
+    )
+}
+
+pub(super) fn gc_state_name(vm: &VmGreenThread) -> &'static str {
+    match vm.gc_state {
+        GcState::Idle => "Idle",
+        GcState::Marking => "Marking",
+        GcState::Sweeping { .. } => "Sweeping",
+    }
+}
+
+/// scripted collector pacing; returns true when the plan handled this call
+pub(super) fn planned_gc(vm: &mut VmGreenThread) -> bool {
+    let plan = GC_PLAN.with(|c| c.borrow().clone());
+    let Some(plan) = plan else { return false };
+    let n = vm.verif_gc_calls;
+    vm.verif_gc_calls += 1;
+    match plan {
+        GcPlan::Off => true,
+        GcPlan::Script {
+            starts,
+            every,
+            offset,
+            mark_bytes,
+            sweep_bytes,
+            main_only,
+        } => {
+            if main_only && !vm.is_main {
+                return true;
+            }
+            match vm.gc_state {
+                GcState::Idle => {
+                    if starts.contains(&n) || (every > 0 && n % every == offset % every) {
+                        vm.start_mark_phase();
+                    }
+                }
+                GcState::Marking => {
+                    let mut slice = mark_bytes.max(1);
+                    vm.process_gray(&mut slice);
+                }
+                GcState::Sweeping { .. } => {
+                    vm.sweep(sweep_bytes.max(1));
+                }
+            }
+            true
+        }
+    }
+}
+
+pub struct StepGuard {
+    pub vm: *const VmGreenThread,
+    pub pc: u32,
+    pub d0: usize,
+    pub b0: usize,
+    pub f0: usize,
+    pub r0: bool,
+}
+
+impl StepGuard {
+    pub(super) fn new(vm: &VmGreenThread) -> Option<StepGuard> {
+        if !on(T_STEP) {
+            return None;
+        }
+        Some(StepGuard {
+            vm: vm as *const VmGreenThread,
+            pc: vm.pc.0,
+            d0: vm.value_stack.len(),
+            b0: vm.stack_base,
+            f0: vm.call_stack.len(),
+            r0: vm.string_op_index1 != 0 || vm.string_op_index2 != 0,
+        })
+    }
+}
+
+fn tag_name(t: ValueTag) -> &'static str {
+    match t {
+        ValueTag::Int => "i",
+        ValueTag::Float => "f",
+        ValueTag::Bool => "b",
+        ValueTag::Addr => "a",
+        ValueTag::String => "S",
+        ValueTag::Array => "A",
+        ValueTag::Struct => "T",
+        ValueTag::Variant => "V",
+        ValueTag::Channel => "C",
+    }
+}
+
+impl Drop for StepGuard {
+    fn drop(&mut self) {
+        let vm = unsafe { &*self.vm };
+        let instr = vm.shared.program[self.pc as usize];
+        let dbg = format!("{:?}", instr);
+        let op = dbg.split(['(', ' ', '{']).next().unwrap_or("").to_string();
+        let nums: Vec<String> = dbg
+            .split(|c: char| !(c.is_ascii_digit() || c == '-'))
+            .filter(|s| !s.is_empty() && s.parse::<i64>().is_ok())
+            .map(|s| s.to_string())
+            .collect();
+        let st = if std::thread::panicking() {
+            "panic"
+        } else if vm.done {
+            "done"
+        } else if vm.error.is_some() {
+            "err"
+        } else if vm.pending_host_func.is_some() {
+            "host"
+        } else {
+            "run"
+        };
+        let n = vm.value_stack.len();
+        let top: Vec<String> = vm.value_stack[n.saturating_sub(3)..]
+            .iter()
+            .map(|v| format!("\"{}\"", tag_name(v.1)))
+            .collect();
+        ev(T_STEP, || {
+            format!(
+                r#"{{"e":"step","tid":{},"pc":{},"op":"{}","a":[{}],"d0":{},"d1":{},"b0":{},"b1":{},"f0":{},"f1":{},"pc1":{},"st":"{}","r0":{},"top":[{}]}}"#,
+                tid_of(vm.id),
+                self.pc,
+                op,
+                nums.join(","),
+                self.d0,
+                vm.value_stack.len(),
+                self.b0,
+                vm.stack_base,
+                self.f0,
+                vm.call_stack.len(),
+                vm.pc.0,
+                st,
+                self.r0,
+                top.join(",")
+            )
+        });
+    }
+}
+
+#[derive(Debug, Clone)]
+pub struct ThreadStats {
+    pub tid: u64,
+    pub is_main: bool,
+    pub heap_size: usize,
+    pub heap_objects: usize,
+    pub last_gc_heap_size: usize,
+    pub gc_state: &'static str,
+    pub gc_cycles: u64,
+    pub stack_len: usize,
+    pub stack_base: usize,
+    pub frames: usize,
+}
+
+impl VmGreenThread {
+    pub fn verif_stats(&self) -> ThreadStats {
+        ThreadStats {
+            tid: tid_of(self.id),
+            is_main: self.is_main,
+            heap_size: self.heap_size,
+            heap_objects: self.heap_list.len(),
+            last_gc_heap_size: self.last_gc_heap_size,
+            gc_state: gc_state_name(self),
+            gc_cycles: self.verif_gc_cycles,
+            stack_len: self.value_stack.len(),
+            stack_base: self.stack_base,
+            frames: self.call_stack.len(),
+        }
+    }
+}
+
+impl Runtime {
+    /// statistics of every thread the runtime still owns (run queue + finished main thread)
+    pub fn verif_stats(&self) -> Vec<ThreadStats> {
+        let mut v: Vec<ThreadStats> = self.run_queue.iter().map(|t| t.verif_stats()).collect();
+        if let Some(m) = &self.finished_main_thread {
+            v.push(m.verif_stats());
+        }
+        v
+    }
+
+    pub fn verif_main_mut(&mut self) -> Option<&mut VmGreenThread> {
+        if let Some(m) = self.finished_main_thread.as_deref_mut() {
+            return Some(m);
+        }
+        self.run_queue
+            .iter_mut()
+            .find(|t| t.is_main)
+            .map(|b| b.as_mut())
+    }
+}
